@@ -163,12 +163,16 @@ def gen_case(rng, profile, idx=0):
             serde.append({"rename_all": rng.choice(pool[6:] if "kebab_all" in triggers and rng.random() < 0.7 else pool)})
         if is_enum:
             vs = []
-            for v in pick_names(rng, ["Active", "Inactive", "InProgress", "Done", "A", "NotStarted", "HTTPError", "X1"], rng.randint(1, 4)):
+            nvar = 0 if rng.random() < 0.06 else rng.randint(1, 4)
+            all_skip = rng.random() < 0.08
+            for v in pick_names(rng, ["Active", "Inactive", "InProgress", "Done", "A", "NotStarted", "HTTPError", "X1"], nvar):
                 vserde = []
                 if rng.random() < 0.3:
                     vserde.append({"rename": rng.choice(RENAME_VARIANT_BAD if ("variant_bad" in triggers and rng.random() < 0.6) else RENAME_VARIANT_OK + RENAME_IDENT)})
-                elif rng.random() < 0.12 and vs:
-                    vserde.append({"skip": True})       # never the first one: at least one variant stays listed
+                elif rng.random() < 0.15:
+                    vserde.append({"skip": True})       # any variant, also the first; all of them may end up skipped
+                if all_skip:
+                    vserde = [{"skip": True}]
                 vs.append({"name": v, "serde": vserde})
             items.append({"kind": "enum", "name": n, "derives": ["Serialize", "Deserialize"], "serde": serde, "variants": vs})
             continue
@@ -259,6 +263,10 @@ def gen_case(rng, profile, idx=0):
                 payload = rng.choice(cands)["name"]
             else:
                 payload = rng.choice(["()", "42", "\"text\"", "true"])
+            if rng.random() < 0.12:
+                # untyped local (the payload type falls back to the variable's name), sometimes a raw identifier
+                payload = rng.choice(["r#final", "r#type", "computed", "r#box"])
+                body.append("let %s = compute();" % payload)
             body.append({"emit": en, "recv": "app", "payload": payload})
             events.append(en)
         cmd_items.append({"kind": "fn", "name": cname, "attrs": [rng.choice([["tauri", "command"], ["command"]])],
@@ -308,6 +316,12 @@ def witnesses():
     w["regression:unicode-events"] = {"project": _proj([_cmd("notify", [{"name": "app", "ty": P("AppHandle", segs=["tauri"])}, {"name": "msg", "ty": P("String")}], None,
                                                            [{"emit": "co₂:level", "recv": "app", "payload": "msg"}, {"emit": "area-m²/changed", "recv": "app", "payload": "msg"},
                                                             {"emit": "данные/обновлены", "recv": "app", "payload": "msg"}, {"emit": "①-step", "recv": "app", "payload": "msg"}])]), "cfg": DEFAULT_CFG}
+    w["C01-empty-enum"] = {"project": _proj([{"kind": "enum", "name": "Status", "derives": ["Serialize", "Deserialize"], "serde": [],
+                                              "variants": [{"name": "Active", "serde": [{"skip": True}]}, {"name": "Done", "serde": [{"skip": True}]}]},
+                                             {"kind": "enum", "name": "Nothing", "derives": ["Serialize", "Deserialize"], "serde": [], "variants": []},
+                                             _cmd("status", [{"name": "n", "ty": P("Nothing")}], P("Status"))]), "cfg": DEFAULT_CFG}
+    w["C01-event-raw-fallback"] = {"project": _proj([_cmd("notify", [{"name": "app", "ty": P("AppHandle", segs=["tauri"])}], None,
+                                                          ["let r#final = compute();", {"emit": "e", "recv": "app", "payload": "r#final"}])]), "cfg": DEFAULT_CFG}
     w["C01-literal-backslash"] = {"project": _proj([{"kind": "enum", "name": "Status", "derives": ["Serialize", "Deserialize"], "serde": [],
                                                      "variants": [{"name": "Active", "serde": [{"rename": "a\"b"}]}, {"name": "Done", "serde": []}]},
                                                     _cmd("status", [], P("Status"))]), "cfg": DEFAULT_CFG}
